@@ -218,7 +218,10 @@ class Interp:
         nested = getattr(self.c, "nested", {})
         if s.name not in nested:
             self.unsupported(s, "nested def %s without contract" % s.name)
-        self.ctx.env[s.name] = VFunc(s.name, nested[s.name])
+        if isinstance(nested[s.name], V):
+            self.ctx.env[s.name] = nested[s.name]     # the contract supplies the value the def denotes
+        else:
+            self.ctx.env[s.name] = VFunc(s.name, nested[s.name])
 
     def st_Break(self, s):
         raise BreakSig()
